@@ -1,3 +1,101 @@
 package main
 
-func genBasexStream(ctx *Ctx, emit func(Case)) {}
+import (
+	"fmt"
+	"strings"
+
+	"verifharness/internal/keys"
+	"verifharness/internal/prng"
+)
+
+// genBasexStream (C10): the streaming encoder under Write splits and the
+// streaming decoder under reader fragmentation, against the model's one-shot
+// forms (the model ignores the w= / rd= token).
+func genBasexStream(ctx *Ctx, emit func(Case)) {
+	r := ctx.R.Fork()
+	encs := []string{"b62", "b62s", "b58", "b58s"}
+	for k := 0; k < ctx.N(300, 4000); k++ {
+		e := encs[k%4]
+		ibl, obl := 32, 43
+		if strings.HasPrefix(e, "b58") {
+			ibl, obl = 19, 26
+		}
+		n := prng.Pick(r, 0, 1, ibl-1, ibl, ibl+1, 2*ibl, 2*ibl+7, r.Intn(300), 128*ibl, 128*ibl+5, 200*ibl+3)
+		b := r.Bytes(n)
+		if r.Intn(6) == 0 {
+			for i := range b {
+				b[i] = prng.Pick(r, byte(0), byte(0xff))
+			}
+		}
+		var ws []string
+		for i := 0; i < 1+r.Intn(4); i++ {
+			ws = append(ws, fmt.Sprint(prng.Pick(r, 0, 1, ibl-1, ibl, ibl+1, r.Intn(n+1), 128*ibl)))
+		}
+		line := fmt.Sprintf("bx.enc %s %s w=%s", e, keys.Hex(b), strings.Join(ws, "."))
+		out := goExec(line)
+		emit(Case{Stream: "basex.stream.enc", Line: line, GoOut: out, Branch: fmt.Sprintf("%s/len%%%d=%d", e, ibl, n%ibl),
+			Sample: map[string]interface{}{"op": "NewEncoder", "enc": e, "len": n, "writes": ws},
+			Direct: func() string {
+				want := "ok " + keys.Hex([]byte(encByName(e).EncodeToString(b)))
+				if out != want {
+					return fmt.Sprintf("the streaming BaseX encoder differs from the one-shot form: %s", trunc(line, 400))
+				}
+				return ""
+			}})
+		// decode the encoding (genuine), a mutated one, and with skipped characters
+		text := []byte(encByName(e).EncodeToString(b))
+		variants := [][]byte{text}
+		if len(text) > 0 {
+			m := append([]byte(nil), text...)
+			m[r.Intn(len(m))] = prng.Pick(r, byte('z'), byte('0'), byte('!'), byte(' '), byte('1'))
+			variants = append(variants, m)
+			variants = append(variants, text[:len(text)-1-r.Intn(min(len(text), 3))])
+			if !strings.HasSuffix(e, "s") {
+				var sp []byte
+				for _, c := range text {
+					sp = append(sp, c)
+					if r.Intn(9) == 0 {
+						sp = append(sp, prng.Pick(r, byte(' '), byte('\n'), byte('>'), byte('\t')))
+					}
+				}
+				variants = append(variants, sp)
+			}
+		}
+		for vi, t := range variants {
+			var rs []string
+			for i := 0; i < 1+r.Intn(4); i++ {
+				rs = append(rs, fmt.Sprint(prng.Pick(r, 0, 1, 1, obl-1, obl, obl+1, 2*obl, r.Intn(len(t)+1), 4096, -1)))
+			}
+			ok := false
+			for _, x := range rs {
+				if x != "0" {
+					ok = true
+				}
+			}
+			if !ok {
+				rs = append(rs, "7")
+			}
+			t := t
+			line := fmt.Sprintf("bx.dec %s %s rd=%s", e, keys.Hex(t), strings.Join(rs, "."))
+			out := goExec(line)
+			cmp := func(a, b string) bool { // ok: exact; errors: both errors (positions are per buffer in the stream)
+				if strings.HasPrefix(a, "ok") || strings.HasPrefix(b, "ok") {
+					return a == b
+				}
+				return strings.HasPrefix(a, "err") && strings.HasPrefix(b, "err")
+			}
+			emit(Case{Stream: "basex.stream.dec", Line: line, GoOut: out, Cmp: cmp, Branch: fmt.Sprintf("%s/variant%d/%s", e, vi, strings.Fields(out)[0]),
+				Sample: map[string]interface{}{"op": "NewDecoder", "enc": e, "chars": len(t), "reads": rs, "outcome": strings.Fields(out)[0]},
+				Direct: func() string {
+					d, err := encByName(e).DecodeString(string(t))
+					if err == nil && out != "ok "+keys.Hex(d) {
+						return fmt.Sprintf("the streaming BaseX decoder differs from the one-shot form (which accepts): %s -> %s", trunc(line, 400), trunc(out, 100))
+					}
+					if err != nil && strings.HasPrefix(out, "ok") {
+						return fmt.Sprintf("the streaming BaseX decoder accepts what the one-shot form rejects (%v): %s", err, trunc(line, 400))
+					}
+					return ""
+				}})
+		}
+	}
+}
